@@ -110,8 +110,11 @@ func toCtyNumber(val reflect.Value, path cty.Path) (cty.Value, error) {
 		}
 
 		if val.Type().AssignableTo(bigFloatType) {
-			bigFloat := val.Interface().(big.Float)
-			return cty.NumberVal(&bigFloat), nil
+			// A plain struct copy of a big.Float still shares the mantissa
+			// array with the caller's number, so make a real copy: the new
+			// value must not change if the caller modifies its number later.
+			src := val.Interface().(big.Float)
+			return cty.NumberVal(new(big.Float).Copy(&src)), nil
 		}
 
 		fallthrough
